@@ -240,6 +240,14 @@ func knownFindingReproducers(c *Ctx) {
 	if res := runProgramTree(programSource(ts)); !bytes.Equal(res.noLines, []byte{2, 1, 2, 11, 1, 5, 0, 0, 0}) {
 		c.Fail("recovered-panic-left-in-chain", map[string]string{"tree": hx(encTree(ts, false)), "source": programSource(ts), "got": hx(res.noLines), "want": "0201020b0105000000", "host_panic": res.hostMsg})
 	}
+	// regression (fix cda9c95, former finding nested-recover-drops-active-panic): the recovery of a
+	// nested panic leaves the active panic in the chain although an aborted panic is listed below it
+	td := []*Ins{{Tok: tDeferFn, Body: []*Ins{{Tok: tCall, Body: []*Ins{{Tok: tDeferFn, Body: []*Ins{{Tok: tRecover}}}, {Tok: tPanic, N: 4}}}}},
+		{Tok: tDeferFn, Body: []*Ins{{Tok: tPanic, N: 1}}}, {Tok: tPanic, N: 3}}
+	c.Count("evaluations")
+	if res := runProgramTree(programSource(td)); !bytes.Equal(res.noLines, []byte{2, 1, 4, 11, 2, 1, 0, 0, 0, 3, 0, 0, 0}) {
+		c.Fail("nested-recover-dropped-active-panic", map[string]string{"tree": hx(encTree(td, false)), "source": programSource(td), "got": hx(res.noLines), "want": "0201040b020100000003000000", "host_panic": res.hostMsg})
+	}
 	// a deferred native function that panics: Go adds the panic to the chain (and it can be recovered)
 	t := []*Ins{{Tok: tDeferNat, K: 4, N: 1}}
 	c.Count("evaluations")
@@ -296,12 +304,12 @@ func registerFrames() {
 			var fl []flav
 			src := programSource(t)
 			fl = append(fl, flav{"program", src, runProgramTree(src), hx(encTree(t, true))})
-			reqs = append(reqs, "gospecf\t"+fl[0].treeHx)
+			reqs = append(reqs, "gospec\t"+fl[0].treeHx)
 			mreqs = append(mreqs, "frames\t"+fl[0].treeHx)
 			tt := templateTree(t)
 			tsrc := templateSource(tt)
 			fl = append(fl, flav{"template", tsrc, runTemplateTree(tsrc), hx(encTree(tt, true))})
-			reqs = append(reqs, "gospecf\t"+fl[1].treeHx)
+			reqs = append(reqs, "gospec\t"+fl[1].treeHx)
 			mreqs = append(mreqs, "frames\t"+fl[1].treeHx)
 			all = append(all, fl)
 		}
@@ -318,14 +326,6 @@ func registerFrames() {
 			c.Fail("model-driver-failed", map[string]string{"error": err.Error()})
 			return
 		}
-		// the answer ends with the two finding-trigger flags of the Go run
-		flags := make([][2]bool, len(want))
-		for i, w := range want {
-			if strings.HasPrefix(w, "ok:") && len(w) >= 7 {
-				flags[i] = [2]bool{w[len(w)-3] == '1', w[len(w)-1] == '1'}
-				want[i] = w[:len(w)-4]
-			}
-		}
 		seen := 0
 		for i, t := range trees {
 			for j, f := range all[i] {
@@ -336,7 +336,7 @@ func registerFrames() {
 				}
 				got := "ok:" + hx(f.res.enc)
 				if got != want[2*i+j] {
-					c.Fail(classifyM(t, flags[2*i+j], got == model[2*i+j], model[2*i+j]), map[string]string{"tree": hx(encTree(t, false)), "flavour": f.name, "source": f.src,
+					c.Fail(classifyM(t, got == model[2*i+j], model[2*i+j]), map[string]string{"tree": hx(encTree(t, false)), "flavour": f.name, "source": f.src,
 						"vm": got, "go_spec": want[2*i+j], "model_of_todays_vm": model[2*i+j], "host_panic": f.res.hostMsg})
 					continue
 				}
@@ -393,7 +393,7 @@ func registerFrames() {
 			}
 			vm := all[sampleIdx[k]][0].res
 			if vm.buildErr == "" && "ok:"+hx(vm.noLines) != gc {
-				c.Fail(classifyM(t, flags[2*sampleIdx[k]], "ok:"+hx(vm.enc) == model[2*sampleIdx[k]], model[2*sampleIdx[k]]), map[string]string{"tree": hx(encTree(t, false)), "flavour": "program", "source": all[sampleIdx[k]][0].src,
+				c.Fail(classifyM(t, "ok:"+hx(vm.enc) == model[2*sampleIdx[k]], model[2*sampleIdx[k]]), map[string]string{"tree": hx(encTree(t, false)), "flavour": "program", "source": all[sampleIdx[k]][0].src,
 					"vm": "ok:" + hx(vm.noLines), "gc": gc, "host_panic": vm.hostMsg})
 			}
 		}
@@ -421,19 +421,11 @@ func outcomeCode(enc []byte) int {
 }
 
 // classify names the failure signature of a tree on which the VM disagrees
-// with Go. flags are the finding triggers met by the Go run of the tree
-// (FramesM.go_flags): a deferred call panicked after a recovery in the same
-// activation (no longer a finding: repaired by 7a741c2); a recovery happened
-// while an aborted panic was listed. A known signature is given only when the
-// VM does what the model of today's machine does.
-func classify(t []*Ins, flags [2]bool, equalsModel bool) string {
-	if equalsModel {
-		switch {
-		case hasDeferredNativePanic(t):
-			return "native-defer-panic-host-panic"
-		case flags[1]:
-			return "nested-recover-drops-active-panic"
-		}
+// with Go. A known signature is given only when the VM does what the model of
+// today's machine does.
+func classify(t []*Ins, equalsModel bool) string {
+	if equalsModel && hasDeferredNativePanic(t) {
+		return "native-defer-panic-host-panic"
 	}
 	return "trace-or-outcome-differs-from-go"
 }
@@ -442,13 +434,13 @@ func classify(t []*Ins, flags [2]bool, equalsModel bool) string {
 // machine (ok:<hex of trace and outcome>). A panic that left a function
 // called back by native code (outcome 16 of the model) is the known finding
 // callback-panic-is-fatal, again only when the VM does what the model does.
-func classifyM(t []*Ins, flags [2]bool, equalsModel bool, modelAns string) string {
+func classifyM(t []*Ins, equalsModel bool, modelAns string) string {
 	if equalsModel && hasCallback(t) && strings.HasPrefix(modelAns, "ok:") {
 		if b, err := hex.DecodeString(modelAns[3:]); err == nil && outcomeCode(b) == 16 {
 			return "callback-panic-is-fatal"
 		}
 	}
-	return classify(t, flags, equalsModel)
+	return classify(t, equalsModel)
 }
 
 func init() {
@@ -475,12 +467,11 @@ func init() {
 		if c.Tier == "thorough" {
 			small := shrinkTree(t, func(v []*Ins) bool {
 				r := runProgramTree(programSource(v))
-				o, err := modelDriver([]string{"gospecf\t" + hx(encTree(v, true))})
-				if err != nil || r.buildErr != "" || len(o[0]) < 7 {
+				o, err := modelDriver([]string{"gospec\t" + hx(encTree(v, true))})
+				if err != nil || r.buildErr != "" {
 					return false
 				}
-				w := o[0]
-				return "ok:"+hx(r.enc) != w[:len(w)-4] && w[len(w)-4:] == "0000" && !hasDeferredNativePanic(v)
+				return "ok:"+hx(r.enc) != o[0] && !hasDeferredNativePanic(v)
 			})
 			fmt.Printf("shrunk: %s\n%s", hx(encTree(small, false)), programSource(small))
 		}
